@@ -411,7 +411,7 @@ func HarnessC01ProviderFlushShutdown() {
 
 // the deadline scenario in its smallest form, with two timer firings (the
 // deadline and whatever timer the code arms after it): one span, ForceFlush,
-// one more span, Shutdown
+// Shutdown
 func HarnessC01ExportTimeoutTwice() {
 	stopped := false
 	e := &c01TimeoutExporter{c01Exporter: c01Exporter{stopped: &stopped}}
@@ -421,10 +421,9 @@ func HarnessC01ExportTimeoutTwice() {
 		vndReach("flush-nil")
 		vndAssert(e.count("s0") == 1 || atomic.LoadUint32(&bsp.dropped) > 0, "spans-ended-before-flush-are-exported-when-flush-returns-nil")
 	}
-	bsp.OnEnd(c01Span("s1", true))
 	if bsp.Shutdown(context.Background()) == nil {
 		vndGhostStore(&stopped, true)
 		vndReach("shutdown-nil")
 	}
-	c01Common(&e.c01Exporter, c01Cfg{queue: 2, batch: 1}, []string{"s0", "s1"})
+	c01Common(&e.c01Exporter, c01Cfg{queue: 2, batch: 1}, []string{"s0"})
 }
